@@ -12,6 +12,9 @@ import (
 
 func init() { vh.Register("C07", isolated("C07", runC07)) }
 
+// the one remaining gap around list requests (they panicked before fix 985f10a): rejected with a positioned error
+const sigListRequest = "C07 documented language not accepted: listRequest on a service method or entity query"
+
 const mainFile = "foo/v1/a.j5s"
 const mainProto = "foo/v1/a.j5s.proto"
 
@@ -52,9 +55,6 @@ func (p propT) knownGap() string {
 	t := p.Shape.Item
 	if t.Kind == "float" && t.Rules {
 		return "float rules"
-	}
-	if t.Kind == "key" && t.Fmt == "informal" && t.LRules {
-		return "informal key with list rules"
 	}
 	return ""
 }
@@ -173,7 +173,7 @@ func runC07(cfg *vh.Config) error {
 		Check:  "c07_check",
 	}
 	ff := &vh.CasesFile{
-		Header: "From Coq Require Import String List NArith ZArith.\nFrom J5V.model Require Import BclLexer CmpbFields CmpbDecls CmpbFront CmpbWalker CmpbFrontCorr.",
+		Header: "From Coq Require Import String List NArith ZArith.\nFrom J5V.model Require Import Entity.\nFrom J5V.model Require Import BclLexer CmpbFields CmpbDecls CmpbFront CmpbWalker CmpbPackage CmpbEntity CmpbFrontCorr.",
 		Type:   "c07fcase",
 		Check:  "c07f_check",
 	}
@@ -307,17 +307,18 @@ func runC07(cfg *vh.Config) error {
 			res.Count("abs_" + o.Verdict)
 			switch o.Verdict {
 			case "VPanic":
-				if !a.ListReq { // the list_request panic is judged (and recorded) in the declaration stream
-					res.Fail(vh.Failure{Case: caseNo, Stream: "abs", Sig: fmt.Sprintf("C07 %s alone in a file: panic %s", absKind(a.Kind), errClass(o.ErrText)), Clause: "never panics", Input: in, Got: o.ErrText})
-				}
+				res.Fail(vh.Failure{Case: caseNo, Stream: "abs", Sig: fmt.Sprintf("C07 %s alone in a file: panic %s", absKind(a.Kind), errClass(o.ErrText)), Clause: "never panics", Input: in, Got: o.ErrText})
 			case "VOther":
 				res.Fail(vh.Failure{Case: caseNo, Stream: "abs", Sig: fmt.Sprintf("C07 %s alone in a file: %s", absKind(a.Kind), errClass(o.ErrText)), Clause: "generated file parses (harness expectation) / no hang", Input: in, Got: o.ErrText})
 			case "VLinkErr":
 				res.Fail(vh.Failure{Case: caseNo, Stream: "abs", Sig: fmt.Sprintf("C07 %s alone in a file: link error in isolation", absKind(a.Kind)), Clause: "accepted and links without depending on unrelated declarations", Input: in, Got: o.ErrText})
 			case "VConvErr":
-				if a.InLang {
+				if a.InLang && a.ListReq {
+					res.Fail(vh.Failure{Case: caseNo, Stream: "abs", Sig: sigListRequest, Clause: "every package within the documented language is accepted", Input: in, Got: o.ErrText})
+				} else if a.InLang {
 					res.Fail(vh.Failure{Case: caseNo, Stream: "abs", Sig: fmt.Sprintf("C07 %s of the documented language rejected (%s)", absKind(a.Kind), errClass(o.ErrText)), Clause: "every package within the documented language is accepted", Input: in, Got: o.ErrText})
 				}
+				checkPositions(res, caseNo, "abs", "declaration conversion error", o.Pos, content, mainFile, in)
 			case "VOk":
 				if len(corpus) < 500 {
 					corpus = append(corpus, content)
@@ -399,15 +400,15 @@ func runC07(cfg *vh.Config) error {
 			res.Count("file_" + o.Verdict)
 			switch o.Verdict {
 			case "VPanic":
-				if !fc.ListReq {
-					res.Fail(vh.Failure{Case: caseNo, Stream: "file", Sig: "C07 file of several declarations: panic " + errClass(o.ErrText), Clause: "never panics", Input: in, Got: o.ErrText})
-				}
+				res.Fail(vh.Failure{Case: caseNo, Stream: "file", Sig: "C07 file of several declarations: panic " + errClass(o.ErrText), Clause: "never panics", Input: in, Got: o.ErrText})
 			case "VOther":
 				res.Fail(vh.Failure{Case: caseNo, Stream: "file", Sig: "C07 file of several declarations: " + errClass(o.ErrText), Clause: "generated file parses (harness expectation) / no hang", Input: in, Got: o.ErrText})
 			case "VLinkErr":
 				res.Fail(vh.Failure{Case: caseNo, Stream: "file", Sig: "C07 file of several declarations: link error (" + errClass(o.ErrText) + ")", Clause: "accepted and links", Input: in, Got: o.ErrText})
 			case "VConvErr":
-				if fc.InLang && !fc.ListReq {
+				if fc.InLang && fc.ListReq {
+					res.Fail(vh.Failure{Case: caseNo, Stream: "file", Sig: sigListRequest, Clause: "every package within the documented language is accepted", Input: in, Got: o.ErrText})
+				} else if fc.InLang {
 					res.Fail(vh.Failure{Case: caseNo, Stream: "file", Sig: "C07 file of in-language declarations rejected (" + errClass(o.ErrText) + ")", Clause: "every package within the documented language is accepted", Input: in, Got: o.ErrText})
 				}
 				checkPositions(res, caseNo, "file", "file conversion error", o.Pos, fc.Files, mainFile, in)
@@ -456,7 +457,15 @@ func runC07(cfg *vh.Config) error {
 			if strings.HasPrefix(c.Err.Error(), "resolve file") {
 				kind = "link error in isolation"
 			}
-			res.Fail(vh.Failure{Case: caseNo, Stream: "decl", Sig: fmt.Sprintf("C07 decl %s: %s (%s)", d.Name, kind, truncate(strings.TrimPrefix(errClass(c.Err.Error()), "loadPackage I: loadLocalPackage I: "), 60)), Clause: "every package within the documented language is accepted and links", Input: in, Got: c.Err.Error()})
+			sig := fmt.Sprintf("C07 decl %s: %s (%s)", d.Name, kind, truncate(strings.TrimPrefix(errClass(c.Err.Error()), "loadPackage I: loadLocalPackage I: "), 60))
+			if strings.Contains(c.Err.Error(), "listRequest is not supported on a method") {
+				sig = sigListRequest
+			}
+			if strings.Contains(c.Err.Error(), "TimestampField_Rules") && strings.Contains(c.Err.Error(), "unsupported scalar type *schema_j5pb.Field_Timestamp") {
+				sig = "C07 documented language not accepted: timestamp rules minimum / maximum (unsupported scalar type)"
+			}
+			res.Fail(vh.Failure{Case: caseNo, Stream: "decl", Sig: sig, Clause: "every package within the documented language is accepted and links", Input: in, Got: c.Err.Error()})
+			checkPositions(res, caseNo, "decl", "declaration "+d.Name, cmpb.Positions(c.Err), d.Files, d.Main, in)
 		default:
 			res.Count("decl_ok")
 			corpus = append(corpus, d.Files)
@@ -522,7 +531,11 @@ func runC07(cfg *vh.Config) error {
 			checkPositions(res, caseNo, "mut", "malformed input (lint returned error)", cmpb.Positions(l.Err), content, mainFile, in)
 		case len(l.Pos) > 0:
 			res.Count("lint_reported")
-			checkPositions(res, caseNo, "mut", "malformed input (lint report)", l.Pos, content, mainFile, in)
+			// a report on a package that COMPILES is a warning, not an error of a rejected package: the property
+			// says nothing about where warnings point (audit of known findings L75)
+			if c.Err != nil {
+				checkPositions(res, caseNo, "mut", "malformed input (lint report)", l.Pos, content, mainFile, in)
+			}
 		default:
 			res.Count("lint_clean")
 		}
@@ -581,7 +594,7 @@ func runC07(cfg *vh.Config) error {
 			if l.Panic == nil && !l.TimedOut && li < len(j5s) {
 				if l.Err != nil {
 					checkPositions(res, caseNo, "sem", "semantic error "+d.Name+" (LintFile returned error)", cmpb.Positions(l.Err), d.Files, j5s[li], in)
-				} else if len(l.Pos) > 0 {
+				} else if len(l.Pos) > 0 && c.Err != nil {
 					checkPositions(res, caseNo, "sem", "semantic error "+d.Name+" (LintFile report)", l.Pos, d.Files, j5s[li], in)
 				}
 			}
@@ -595,7 +608,7 @@ func runC07(cfg *vh.Config) error {
 		if la.Panic == nil && !la.TimedOut {
 			if la.Err != nil {
 				checkPositions(res, caseNo, "sem", "semantic error "+d.Name+" (LintAll returned error)", cmpb.Positions(la.Err), d.Files, d.Main, in)
-			} else if len(la.Pos) > 0 {
+			} else if len(la.Pos) > 0 && c.Err != nil {
 				checkPositions(res, caseNo, "sem", "semantic error "+d.Name+" (LintAll report)", la.Pos, d.Files, d.Main, in)
 			}
 		}
@@ -651,6 +664,18 @@ func runC07(cfg *vh.Config) error {
 		ft, fr := runFront(cfg, res, &caseNo, texts, how)
 		ff.Terms = append(ff.Terms, ft...)
 		frontRecs = append(frontRecs, fr...)
+	}
+	// ---- stream 7: entity declarations against model/CmpbEntity.v (expansion by the ent family's model)
+	{
+		et, er := runEntities(cfg, res, &caseNo)
+		ff.Terms = append(ff.Terms, et...)
+		frontRecs = append(frontRecs, er...)
+	}
+	// ---- stream 6: package loading (import graphs with missing packages and cycles) against model/CmpbPackage.v
+	{
+		pt, pr := runPkgLoad(cfg, res, &caseNo)
+		ff.Terms = append(ff.Terms, pt...)
+		frontRecs = append(frontRecs, pr...)
 	}
 
 	res.Evaluations = caseNo
